@@ -184,6 +184,52 @@ def store_paths(repo: Repo, rep, P: str):
 
 
 # ------------------------------------------------------------------------------------ R3 / R4
+def _raise_sites(repo: Repo, ci, fn: ast.FunctionDef, guards: List[str], depth: int):
+    """[(node, exception class name or None, guards)] for every `raise` in fn and in the self-helpers it calls."""
+    out = []
+    defs = {}
+    for n in walk_no_nested(fn):
+        if isinstance(n, ast.Assign) and len(n.targets) == 1 and isinstance(n.targets[0], ast.Name) and isinstance(n.value, ast.Call):
+            defs[n.targets[0].id] = norm(n.value.func).split(".")[-1]
+
+    def rec(stmts, gs):
+        for st in stmts:
+            if isinstance(st, ast.If):
+                t = norm(st.test)
+                if t == "isinstance(self, WarnOnlyRange)":
+                    rec(st.body, gs + ["warnonly"])
+                    rec(st.orelse, gs + ["not-warnonly"])
+                elif t == "not isinstance(self, WarnOnlyRange)":
+                    rec(st.body, gs + ["not-warnonly"])
+                    rec(st.orelse, gs + ["warnonly"])
+                elif "self.min" in t or "self.max" in t:
+                    rec(st.body, gs + ["range-test"])
+                    rec(st.orelse, gs + ["range-test-else"])
+                else:
+                    rec(st.body, gs + [t[:40]])
+                    rec(st.orelse, gs + ["not " + t[:36]])
+            elif isinstance(st, ast.Raise):
+                exc = st.exc
+                name = None
+                if isinstance(exc, ast.Call):
+                    name = norm(exc.func).split(".")[-1]
+                elif isinstance(exc, ast.Name):
+                    name = defs.get(exc.id)
+                out.append((st, name, list(gs)))
+            elif isinstance(st, (ast.With, ast.Try)):
+                rec(getattr(st, "body", []), gs)
+            else:
+                for c in ast.walk(st):
+                    if isinstance(c, ast.Call) and isinstance(c.func, ast.Attribute) and norm(c.func.value) == "self" and depth < 2:
+                        try:
+                            _, h = repo.method(ci, c.func.attr)
+                        except AnchorMissing:
+                            continue
+                        out.extend(_raise_sites(repo, ci, h, list(gs), depth + 1))
+    rec(fn.body, list(guards))
+    return out
+
+
 def validation_rules(repo: Repo, rep, P: str):
     ctl = repo.cls("Controller", module="rv.controller")
     rel = ctl.file.rel
@@ -257,34 +303,34 @@ def validation_rules(repo: Repo, rep, P: str):
     vf = repo.own_method(rng, "validate")
     rep.func("rv.controller.Range.validate")
     vcon = f"{rel}:Range.validate"
-    p = [a.arg for a in vf.args.args if a.arg != "self"][0]
-    top = [s for s in stmts_of(vf)]
-    cond = top[0].test if top and isinstance(top[0], ast.If) else None
-    ok = False
-    if isinstance(cond, ast.BoolOp) and isinstance(cond.op, ast.Or) and len(cond.values) == 2:
-        parts = set()
-        for c in cond.values:
-            if isinstance(c, ast.Compare) and len(c.ops) == 1:
-                l, r, op = norm(c.left), norm(c.comparators[0]), type(c.ops[0])
-                if (l, op, r) == (p, ast.Lt, "self.min") or (l, op, r) == ("self.min", ast.Gt, p):
-                    parts.add("lo")
-                elif (l, op, r) == (p, ast.Gt, "self.max") or (l, op, r) == ("self.max", ast.Lt, p):
-                    parts.add("hi")
-        ok = parts == {"lo", "hi"}
-    elif isinstance(cond, ast.UnaryOp) and isinstance(cond.op, ast.Not) and norm(cond.operand) == f"self.min <= {p} <= self.max":
-        ok = True
-    if ok:
-        rep.ok(f"{P}.R4", vcon, f"if {norm(cond)}", "rejects exactly v < min or v > max (bounds inclusive)")
+    from .. import alg
+    from . import c10
+    try:
+        lo, hi = c10._accept_interval(repo, rng, vf)
+    except c10._NoInterval as e:
+        lo = hi = None
+        rep.inconclusive(f"{P}.R4", vcon, norm(vf)[:120], f"rejection condition not derivable: {e}", f"{rel}:{vf.lineno}")
     else:
-        rep.violation(f"{P}.R4", vcon, f"if {norm(cond) if cond is not None else '?'}",
-                      "a fixed range must reject exactly the values below min or above max: both bounds are legal values "
-                      "and both sides must be tested", f"{rel}:{vf.lineno}")
-    s = norm(vf)
-    if "if isinstance(self, WarnOnlyRange):" in s and "raise e" in s and "RangeValidationError(" in s:
+        if lo == alg.Poly.sym("m") and hi == alg.Poly.sym("M"):
+            rep.ok(f"{P}.R4", vcon, "accepts [min, max]", "rejects exactly v < min or v > max (bounds inclusive)")
+        else:
+            rep.violation(f"{P}.R4", vcon, f"accepts [{lo}, {hi}] (m = min, M = max)",
+                          "a fixed range must reject exactly the values below min or above max: both bounds are legal values "
+                          "and both sides must be tested", f"{rel}:{vf.lineno}")
+    sites = _raise_sites(repo, rng, vf, [], 0)
+    good = [x for x in sites if x[1] == "RangeValidationError" and all(g in ("range-test", "not-warnonly") for g in x[2])]
+    odd = [x for x in sites if x not in good]
+    if good and not odd:
         rep.ok(f"{P}.R4", vcon, "WarnOnlyRange → log.warning; otherwise raise RangeValidationError", "only the warn-only kind is exempt from raising")
-    else:
-        rep.violation(f"{P}.R4", vcon, s[:200], "out-of-range values of a fixed range must raise RangeValidationError (only WarnOnlyRange may just warn)",
+    elif not sites:
+        rep.violation(f"{P}.R4", vcon, norm(vf)[:200], "out-of-range values of a fixed range must raise RangeValidationError (only WarnOnlyRange may just warn)",
                       f"{rel}:{vf.lineno}")
+    elif any(x[1] != "RangeValidationError" and x[1] is not None for x in sites):
+        rep.violation(f"{P}.R4", vcon, "; ".join(f"raise {x[1]}" for x in sites), "the range check must raise RangeValidationError (set_initial and set_raw turn "
+                      "exactly that into the controller-value error)", f"{rel}:{vf.lineno}")
+    else:
+        rep.inconclusive(f"{P}.R4", vcon, "; ".join(f"raise {x[1]} under {x[2]}" for x in odd)[:200],
+                         "the raise is guarded by a condition that is not recognised", f"{rel}:{vf.lineno}")
     wo = repo.cls("WarnOnlyRange", module="rv.controller")
     if repo.base_names(wo) == ["Range"] and not wo.methods:
         rep.ok(f"{P}.R4", f"{rel}:WarnOnlyRange", "marker subclass of Range", nontrivial=False)
